@@ -662,8 +662,10 @@ class _PairsClassifierMixin(BaseMetricLearner, ClassifierMixin):
       scores_sorted = scores[scores_sorted_idces]
       # true labels ordered by decision_function value: (higher first)
       y_ordered = y_valid[scores_sorted_idces]
-      # we need to add a threshold that will reject all points
-      scores_sorted = np.concatenate([[scores_sorted[0] + 1], scores_sorted])
+      # we need to add a threshold that will reject all points (the next
+      # float above the best score: `+ 1` is absorbed by scores >= 2**53)
+      scores_sorted = np.concatenate(
+          [[np.nextafter(scores_sorted[0], np.inf)], scores_sorted])
 
       # finds the threshold that maximizes the accuracy:
       cum_tp = stable_cumsum(y_ordered == 1)  # cumulative number of true
